@@ -117,7 +117,8 @@ def run_case(case):
         finished = None
         just_delivered_eof = False
         was_busy = False
-        while steps < 400:
+        BUDGET = 1500
+        while steps < BUDGET:
             steps += 1
             raw = None
             tick = False
@@ -317,7 +318,10 @@ def run_case(case):
             if len(viol) >= 4:
                 break
         # "when nothing is missing ... the transfer proceeds to completion"
-        if complete_seq is not None and not viol:
+        if steps >= BUDGET:
+            # the scripted sender still had PDUs to deliver when the step budget ended: nothing can be said about completion
+            obs["step_budget_exhausted_not_judged"] = 1
+        elif complete_seq is not None and not viol:
             if finished is None:
                 viol.append({"clause": "no-completion-although-nothing-is-missing", "step": D.h.step.name, "steps": steps})
             elif tuple(finished[:2]) != ("NO_ERROR", "DATA_COMPLETE"):
